@@ -95,8 +95,15 @@ def norm_targ(a):
     if m: return m.group(1)
     return norm_type_string(a)
 
+_NTS_MEMO = {}
 def norm_type_string(s):
-    """normalise spacing / integer suffixes in a (canonical) clang type string"""
+    """normalise spacing / integer suffixes in a (canonical) clang type string (memoised: pure function of the string)"""
+    r = _NTS_MEMO.get(s)
+    if r is None:
+        r = _norm_type_string(s); _NTS_MEMO[s] = r
+    return r
+
+def _norm_type_string(s):
     s = s.strip()
     s = re.sub(r'\s+', ' ', s)
     # normalise template args recursively
@@ -366,6 +373,7 @@ class CT:
         self.kind = kind; self.c = c; self.rec = rec; self.elem = elem; self.size = size
         self.short = short; self.model = model; self.margs = margs; self.ref = ref
     def decl(self, name=''):
+        if self.kind == 'func': fail('object of function type', None)
         """C declarator string for a variable of this type"""
         if self.kind == 'ptr':
             if self.elem.kind == 'array':
@@ -1967,14 +1975,21 @@ class Translator:
             return [pad + '/* unused constexpr local %s dropped */' % d.get('name')]
         tq = d.get('type', {})
         pt = parse_type(tq.get('desugaredQualType') or tq.get('qualType'))
-        ct = self.ctype(tq, fctx, d)
-        name = d.get('name')
-        if d.get('storageClass') == 'static' and not d.get('constexpr'):
-            fail('static local variable', d)
         init = None
         for c in d.get('inner', []) or []:
             if c.get('kind', '').endswith('Attr'): continue
             init = c
+        try:
+            ct = self.ctype(tq, fctx, d)
+        except Unsupported:
+            # `auto x = f(..)` whose deduced type is printed with the sugar of an alias local to ANOTHER function (`const left_t *`):
+            # the initializer expression carries a type that can be resolved
+            it = (init or {}).get('type') or {}
+            if init is None or pt.kind == 'ref' or not (it.get('desugaredQualType') or it.get('qualType')): raise
+            ct = self.ctype(it, fctx, init)
+        name = d.get('name')
+        if d.get('storageClass') == 'static' and not d.get('constexpr'):
+            fail('static local variable', d)
         if pt.kind == 'ref':
             if init is None: fail('reference without initializer', d)
             return [pad + '%s = %s;' % (ct.decl(name), self.addr(init, fctx))]
@@ -3237,9 +3252,37 @@ class Translator:
         fail('no model for std call %s' % q, n)
 
     # ---------------------------------------------------------------- output
+    def ordered_struct_defs(self):
+        """struct_defs in an order in which every struct used BY VALUE is complete before its user.  Completion order already is such an
+        order except when a record was met by value while it was still being built (a type string naming it was resolved during its own
+        construction); a stable topological sort repairs exactly those cases and leaves every other text where it was."""
+        defs = list(self.struct_defs)
+        name_of = {}
+        for k, t in enumerate(defs):
+            m = re.search(r'^(?:struct|union) (\w+) \{', t, re.M)
+            if m and not t.startswith('static inline'): name_of.setdefault(m.group(1), k)
+        deps = {}
+        for k, t in enumerate(defs):
+            m = re.search(r'^(?:struct|union) (\w+) \{', t, re.M)
+            if not m or t.startswith('static inline'): continue
+            body = t[m.end():]
+            ds = set()
+            for fm in re.finditer(r'^\s*(?:struct|union) (\w+) ([^;*]*);', body, re.M):      # by-value members only (no '*')
+                j = name_of.get(fm.group(1))
+                if j is not None and j != k: ds.add(j)
+            deps[k] = ds
+        out = []; done = set(); onstack = set()
+        def emit(k):
+            if k in done or k in onstack: return
+            onstack.add(k)
+            for j in sorted(deps.get(k, ())): emit(j)
+            onstack.discard(k); done.add(k); out.append(defs[k])
+        for k in range(len(defs)): emit(k)
+        return out
+
     def structs_only(self):
         out = ['/* struct layouts of the generated C (for native replay); generated by cxx2c */']
-        for t in self.struct_defs:
+        for t in self.ordered_struct_defs():
             if t.startswith('static inline'): continue
             out.append(t)
         return '\n'.join(out)
@@ -3252,7 +3295,7 @@ class Translator:
             out.append('extern %s;' % LIBC_PROTOS[nm])
         for proto in getattr(self, 'abs_protos', {}).values():
             out.append(proto)
-        out.extend(self.struct_defs)
+        out.extend(self.ordered_struct_defs())
         for nm, tyd in self.top_typedefs:
             try:
                 ct = self.ctype(tyd)
